@@ -47,11 +47,12 @@ CrashPlans(p) == {<<c, s>> : c \in PanicOps(p), s \in SolveOps(p)}
 
 TruthClass(g) == IF TruthOfGoal(g) THEN "Unique" ELSE "None"
 
-(* Named deviation SLG_RootSkipsDelayedAnswer (chalk-engine/src/logic.rs root_answer ->
-   InvalidAnswer, solve.rs/aggregate.rs skip it): the table of the root goal was completed
-   while it was NOT the root (inside a coinductive cycle through another table), so one of
-   its answers still carries delayed subgoals; only a root table gets the refinement strand
-   that discharges them.  A later root query on that table skips the answer. *)
+(* The table of the root goal was completed while it was NOT the root (inside a coinductive
+   cycle through another table), so one of its answers still carries delayed subgoals.  Before
+   the repair (fix F20) a later root query on that table skipped the answer for good (former named
+   deviation SLG_RootSkipsDelayedAnswer); now root_answer creates the refinement strand late
+   (action RefineLate).  `stale` is kept in the results as a coverage measure: the histories in
+   which that path is exercised. *)
 StaleDelayed ==
   stT # 0 /\ stT <= Len(tables) /\
   \E i \in 1..Len(tables[stT].answers) : tables[stT].answers[i].del # <<>>
@@ -122,38 +123,38 @@ Clean == lost = <<>>
 \* SLG_NegativeOnDelayedAnswer); after a panic a strand may be lost (SLG_PanicWhileStrandHeld)
 NoPanicUpTo(i) == \A j \in 1..i : results[j].class # "Panic"
 
-\* the engine's own panic needs a stale delayed answer, i.e. an earlier call on the same forest
+\* the engine never panics by itself on a stratified program (former deviation
+\* SLG_NegativeOnDelayedAnswer, repaired by fix F21: action NegSkip)
 EnginePanicShape ==
-  \A i \in 1..Len(results) : (results[i].class = "Panic" /\ results[i].kind # "panic") => i > 1
+  \A i \in 1..Len(results) : results[i].class = "Panic" => results[i].kind = "panic"
 
 \* C02 / C10 / C12: a completed `solve` of a closed goal returns what the program means,
 \* whatever was solved, interrupted or panicked before on the same forest.
 ResultsCorrect ==
   \A i \in 1..Len(results) :
-     (results[i].kind = "solve" /\ ~results[i].stale /\ NoPanicUpTo(i)) => results[i].class = TruthClass(results[i].goal)
+     (results[i].kind = "solve" /\ NoPanicUpTo(i)) => results[i].class = TruthClass(results[i].goal)
 
-\* the deviation is only ever wrong in one direction: a true goal is answered "no solution"
+\* (kept under its old name) a stale delayed answer no longer makes any answer wrong
 DeviationShape ==
   \A i \in 1..Len(results) :
-     (results[i].kind = "solve" /\ results[i].stale /\ results[i].class # results[i].truth)
-        => (results[i].truth = "Unique" /\ results[i].class = "None" /\ i > 1)
+     (results[i].kind = "solve" /\ results[i].stale /\ NoPanicUpTo(i)) => results[i].class = results[i].truth
 
 \* C12 (as the engine is): a call made while no strand has been lost to a panic answers correctly,
 \* whatever panicked before; named deviation SLG_PanicWhileStrandHeld = the calls with lost > 0
 NoPanicClassUpTo(i) == \A j \in 1..i : results[j].class = "Panic" => results[j].kind = "panic"
 ResultsCorrectUnlessLost ==
   \A i \in 1..Len(results) :
-     (results[i].kind = "solve" /\ ~results[i].stale /\ results[i].lost = 0 /\ NoPanicClassUpTo(i))
+     (results[i].kind = "solve" /\ results[i].lost = 0 /\ NoPanicClassUpTo(i))
         => results[i].class = TruthClass(results[i].goal)
 \* C12 as the property states it (violated through the named deviation)
 PanicSafe ==
   \A i \in 1..Len(results) :
-     (results[i].kind = "solve" /\ ~results[i].stale /\ NoPanicClassUpTo(i)) => results[i].class = TruthClass(results[i].goal)
+     (results[i].kind = "solve" /\ NoPanicClassUpTo(i)) => results[i].class = TruthClass(results[i].goal)
 
 \* C11: an interrupted solve returns the full answer or "Ambiguous; no guidance"
 InterruptSafe ==
   \A i \in 1..Len(results) :
-     (results[i].kind = "limited" /\ ~results[i].stale /\ NoPanicUpTo(i)) => results[i].class \in {TruthClass(results[i].goal), "Unknown"}
+     (results[i].kind = "limited" /\ NoPanicUpTo(i)) => results[i].class \in {TruthClass(results[i].goal), "Unknown"}
 
 \* C12: a call during which a callback panicked reports the panic (and nothing else)
 PanicReported ==
